@@ -9,6 +9,39 @@ def call(name, *args):
 
 
 # --------------------------------------------------------------------------- differentiation operators
+class Col:
+    """x[:, None]: a grid array as a column, i.e. a factor that scales the ROWS of a matrix it multiplies"""
+    def __init__(self, e):
+        self.e = E.lift(e)
+
+    def _num(self, o):
+        if isinstance(o, (int, float, Fraction)) and not isinstance(o, bool):
+            return E.num(o)
+        return None
+
+    def __neg__(self): return Col(-self.e)
+
+    def __mul__(self, o):
+        if isinstance(o, DMat):
+            return Op([(self.e * E.num(1), o.name, E.num(1))], None)      # same spelling as `x[j] * d_d_varphi[j, :]`
+        if isinstance(o, Op):
+            return Op([(self.e * p, d, q) for (p, d, q) in o.terms], None if o.diag is None else self.e * o.diag)
+        if isinstance(o, Col):
+            return Col(self.e * o.e)
+        v = self._num(o)
+        return NotImplemented if v is None else Col(self.e * v)
+
+    def __rmul__(self, o):
+        v = self._num(o)
+        return NotImplemented if v is None else Col(v * self.e)
+
+    def __truediv__(self, o):
+        if isinstance(o, Col):
+            return Col(self.e / o.e)
+        v = self._num(o)
+        return NotImplemented if v is None else Col(self.e / v)
+
+
 class DMat:
     """A differentiation matrix known only by name (an input operator)."""
     def __init__(self, name):
@@ -149,18 +182,25 @@ class MatEntry:
         self.key = key
         self.add = None
 
+    @staticmethod
+    def _v(o):
+        # with `j = np.arange(nphi)` the diagonal update is written with whole arrays instead of values at point j
+        return o.e if isinstance(o, Pt) else (o if isinstance(o, E) else None)
+
     def __add__(self, o):
-        if not isinstance(o, Pt):
+        v = MatEntry._v(o)
+        if v is None:
             return NotImplemented
         r = MatEntry(self.key)
-        r.add = o.e if self.add is None else self.add + o.e
+        r.add = v if self.add is None else self.add + v
         return r
 
     def __sub__(self, o):
-        if not isinstance(o, Pt):
+        v = MatEntry._v(o)
+        if v is None:
             return NotImplemented
         r = MatEntry(self.key)
-        r.add = -o.e if self.add is None else self.add - o.e
+        r.add = -v if self.add is None else self.add - v
         return r
 
 
@@ -183,6 +223,15 @@ class BlockMatrix:
         raise TraceAbort('bad column index')
 
     def __setitem__(self, idx, val):
+        if isinstance(idx, tuple) and len(idx) == 2 and isinstance(idx[0], slice) and isinstance(idx[1], slice):
+            # whole block at once (vectorised assembly): matrix[rows of block rb, columns of block cb] = operator
+            rb, cb = self._colblock(idx[0]), self._colblock(idx[1])
+            if isinstance(val, DMat):
+                val = val.as_op()
+            if not isinstance(val, Op):
+                raise TraceAbort('block set to a non-operator')
+            self.blocks[(rb, cb)] = val
+            return
         if not (isinstance(idx, tuple) and len(idx) == 2 and isinstance(idx[0], LoopIndex)):
             raise TraceAbort('unsupported assignment into block matrix: %r' % (idx,))
         rb = idx[0].block
@@ -419,6 +468,29 @@ class NP:
             if axes is None or (x.grid_first and tuple(axes) == tuple(range(1, len(x.shape) + 1)) + (0,)):
                 return x.transpose()
         raise TraceAbort('np.transpose')
+
+    newaxis = None
+
+    @staticmethod
+    def arange(n):
+        # `j = np.arange(nphi)`: all grid points at once - the same object as the loop variable of `for j in range(nphi)`
+        if isinstance(n, SymInt) and (n.a, n.b) == (1, 0):
+            return LoopIndex(0)
+        raise TraceAbort('np.arange(%r)' % (n,))
+
+    @staticmethod
+    def stack(xs, axis=0):
+        # np.stack([a, b, c], axis=1) == np.array([a, b, c]).transpose() for grid arrays
+        r = ND.from_nested(list(xs))
+        if axis in (1, -1):
+            return r.transpose()
+        if axis == 0:
+            return r
+        raise TraceAbort('np.stack axis %r' % (axis,))
+
+    @staticmethod
+    def ascontiguousarray(x):
+        return x
 
     @staticmethod
     def matmul(a, b):
